@@ -173,6 +173,9 @@ class Harness:
             os.utime(p, ns=(mt, mt))
             return True
         if op == 'rm':
+            if os.path.islink(p):
+                os.remove(p)
+                return True
             if os.path.isdir(p):
                 shutil.rmtree(p)
                 return True
@@ -224,6 +227,21 @@ class Harness:
                 os.utime(p, ns=(mt, mt))
                 return True
             return False
+        if op == 'symlinkdir':
+            # p becomes a symbolic link to a fresh empty directory outside the universe: for the library (which never
+            # resolves links) p is simply an existing directory (C13: outputs built below a linked directory)
+            if os.path.lexists(p):
+                return False
+            store = os.path.join(sb.top, 'linkstore')
+            os.makedirs(store, exist_ok=True)
+            tgt = os.path.join(store, 'd%d' % len(os.listdir(store)))
+            try:
+                os.makedirs(os.path.dirname(p), exist_ok=True)
+                os.mkdir(tgt)
+                os.symlink(tgt, p)
+            except OSError:
+                return False
+            return True
         if op == 'symlink':
             # p becomes a symbolic link to the regular file s[2] (C13: inputs reached through links)
             tgt = sb.ap(s[2])
